@@ -23,6 +23,7 @@ import (
 	"os"
 	"path/filepath"
 	"sort"
+	"strings"
 	"sync"
 	"time"
 
@@ -48,6 +49,7 @@ type tmsg struct {
 	Filed  string `json:"filed"`
 	Signed string `json:"signed"`
 	Sender int    `json:"sender"`
+	V      int    `json:"v"`
 }
 
 type thist struct {
@@ -250,6 +252,23 @@ func boot(dir string, salt int64) *world {
 	}
 	w.label[w.props["A"].key] = "k1"
 	w.label[w.props["B"].key] = "k2"
+	// precondition of every replay: the node admits each of the harness' proposals when it is the
+	// first thing it hears (round 0 accepts, the party is re-keyed under the block hash)
+	for _, lbl := range []string{"A", "A2", "B"} {
+		evs := runHistory(w, thist{H: []tmsg{{Type: "cast", Prop: lbl, Filed: "h" + lbl, Signed: "h" + lbl}}}, 30*time.Millisecond)
+		st := evs[1]["state"].(map[string]interface{})
+		ok := false
+		for _, p := range st["parties"].([]interface{}) {
+			if p.(map[string]interface{})["key"] == "h"+lbl {
+				ok = true
+			}
+		}
+		if !ok {
+			b, _ := json.Marshal(st)
+			vutil.Fatalf("harness: the node does not admit proposal %s (prove value %d bytes, cast time %v): %s",
+				lbl, len(w.props[lbl].bh.ProveValue.Bytes()), w.props[lbl].bh.CurTime, b)
+		}
+	}
 	return w
 }
 
@@ -418,6 +437,21 @@ func (r *run) verifyMsg(m tmsg, seq int) *model.ConsensusVerifyMessage {
 	filed := w.props[m.Filed[1:]].bh.Hash
 	signed := w.props[m.Signed[1:]].bh.Hash
 	sk := w.g.SignSK[m.Sender-1]
+	if m.Type == "forged" {
+		// the faulty member (the last one) files a message under member m.Sender's id: its own key over
+		// the block hash (v = 1), or points that are nobody's shares (v >= 2)
+		fk := w.g.SignSK[nMem-1]
+		share, rnd := groupsig.Sign(fk, filed.Bytes()), groupsig.Sign(fk, w.genesis.Random)
+		if m.V >= 2 {
+			share = groupsig.Sign(fk, []byte(fmt.Sprintf("forged-%d", m.V)))
+		}
+		return &model.ConsensusVerifyMessage{
+			BlockHash:  filed,
+			RandomSign: rnd,
+			Id:         fmt.Sprintf("f-%s-%d-%d", m.Filed, m.Sender, m.V),
+			SignInfo:   model.MakeSignInfo(filed, share, w.g.IDs[m.Sender-1], common.ConsensusVersion),
+		}
+	}
 	return &model.ConsensusVerifyMessage{
 		BlockHash:  filed,
 		RandomSign: groupsig.Sign(sk, w.genesis.Random),
@@ -430,7 +464,14 @@ func runHistory(w *world, h thist, quiet time.Duration) []map[string]interface{}
 	r := &run{w: w, chain: &recChain{BlockChain: core.GetBlockChain(), existing: map[common.Hash]*types.Block{}}, net: &recNet{}}
 	r.vp = logical.VerifNewProcessor(w.g.Miners[0], w.joined, w.groups, r.chain, r.net)
 	evs := []map[string]interface{}{{"event": "Start", "n": nMem, "k": model.Param.GetGroupK(nMem)}}
+	// a party gives up 10 s after its creation: a replay that is slower than that between the first
+	// proposal and its last call (a starved machine) times out on its own and is marked, not judged
+	var firstCast time.Time
+	slow := false
 	for i, m := range h.H {
+		if m.Type == "cast" && firstCast.IsZero() {
+			firstCast = time.Now()
+		}
 		note := ""
 		panicked := false
 		q := quiet
@@ -448,7 +489,7 @@ func runHistory(w *world, h thist, quiet time.Duration) []map[string]interface{}
 			case "cast":
 				ccm := *w.props[m.Prop].ccm // the handler keeps a pointer into the message
 				r.vp.OnMessageCast(&ccm)
-			case "verify", "wrongBlock":
+			case "verify", "wrongBlock", "forged":
 				r.vp.OnMessageVerify(r.verifyMsg(m, i))
 			case "own":
 				// what the node sent to the group also comes back to the node itself (send2Self)
@@ -467,6 +508,7 @@ func runHistory(w *world, h thist, quiet time.Duration) []map[string]interface{}
 					r.vp.OnMessageVerify(own)
 				}
 			case "timeout":
+				firstCast = time.Time{} // the expiry is intended from here on
 				// the party's waitUntilDone gives up after 10 s without completion
 				deadline := time.Now().Add(14 * time.Second)
 				for time.Now().Before(deadline) && len(r.vp.Parties()) > 0 {
@@ -477,8 +519,11 @@ func runHistory(w *world, h thist, quiet time.Duration) []map[string]interface{}
 			}
 		}()
 		evs = append(evs, map[string]interface{}{"event": "Call", "m": m, "note": note, "panicked": panicked, "state": r.settle(q)})
+		if !firstCast.IsZero() && time.Since(firstCast) > 7*time.Second {
+			slow = true
+		}
 	}
-	evs = append(evs, map[string]interface{}{"event": "End", "state": r.settle(2 * quiet)})
+	evs = append(evs, map[string]interface{}{"event": "End", "slow": slow, "state": r.settle(2 * quiet)})
 	return evs
 }
 
@@ -536,9 +581,32 @@ func main() {
 		if nadd >= 2 {
 			counts["twoBlocks"]++
 		}
+		if evs[len(evs)-1]["slow"] == true {
+			counts["slow"]++
+		}
 	}
 	tr.Close()
-	fmt.Printf("c15p: histories=%d calls=%d cast=%d verify=%d own=%d wrongBlock=%d timeout=%d finalised=%d twoBlocks=%d events=%d\n",
-		len(hists), counts["calls"], counts["cast"], counts["verify"], counts["own"], counts["wrongBlock"], counts["timeout"],
-		counts["finalised"], counts["twoBlocks"], tr.N)
+	// what the processor logged as party errors (diagnosis of proposals that were not admitted)
+	if b, err := os.ReadFile(filepath.Join(*scratch, "logs", "c.log")); err == nil {
+		seen := map[string]bool{}
+		for _, line := range strings.Split(string(b), "\n") {
+			if i := strings.Index(line, "error: "); i >= 0 {
+				msg := line[i:]
+				if j := strings.Index(msg, ", id:"); j > 0 {
+					msg = msg[:j]
+				}
+				if len(msg) > 160 {
+					msg = msg[:160]
+				}
+				counts["partyErrors"]++
+				if !seen[msg] && len(seen) < 4 {
+					seen[msg] = true
+					fmt.Printf("c15p-log: %s\n", msg)
+				}
+			}
+		}
+	}
+	fmt.Printf("c15p: histories=%d calls=%d cast=%d verify=%d own=%d wrongBlock=%d forged=%d timeout=%d finalised=%d twoBlocks=%d slow=%d partyErrors=%d events=%d\n",
+		len(hists), counts["calls"], counts["cast"], counts["verify"], counts["own"], counts["wrongBlock"], counts["forged"], counts["timeout"],
+		counts["finalised"], counts["twoBlocks"], counts["slow"], counts["partyErrors"], tr.N)
 }
